@@ -1,5 +1,7 @@
 """C03 — ParallelIndexSet is the sorted global->local map its resize history describes."""
 
+from translators import tr_c03
+
 PID = "C03"
 CLAIM = True
 MANIFEST_TEXT = ("Lean 4 theorems for ALL operation histories and all set sizes (0 and 1 included) about an executable model of "
@@ -15,7 +17,7 @@ MANIFEST_NOTE = ("Trusted: Lean kernel (+propext/Classical.choice/Quot.sound), t
                  "abstracted to a sequence (property C11); std::sort is modelled by insertion sort (theorem sort_unique: the sorted "
                  "list is unique for distinct keys); int overflow of seqNo_/uint32 wrap of renumberLocal are not modelled.")
 TECHNIQUE = "Lean 4 proof over a transcribed state-machine/merge/binary-search model + differential correspondence with std::multimap oracle"
-TRANSLATORS = []
+TRANSLATORS = [tr_c03.translate]
 HARNESS = dict(
     sources=["cxx_c03.cc"],
     repo_sources=["dune/common/exceptions.cc", "dune/common/stdstreams.cc"],
